@@ -52,6 +52,11 @@ def _spec_in(ex, st, fi, src, env):
 
 
 def value_of(ex, st, e: V) -> V:
+    if e.kind == 'none':
+        # the value of `None` is no number at all: an unconstrained real, so that no equation about it can be proved
+        # (a builder that returns None must FAIL its value clause, not leave the verifier's subset)
+        from pyvc.vals import fresh_name
+        return v_real(z3.Real(fresh_name('valnone')))
     if e.kind not in ('ref', 'any', 'opt'):
         raise Unsupported(f'c05c_val of a {e.kind}')
     res = _abstract_value(ex, st, e)
